@@ -6,3 +6,4 @@ import P2P.Props.C16
 #print axioms P2P.Props.C16.transfer_spec
 #print axioms P2P.Props.C16.ligand_only_partial
 #print axioms P2P.Props.C16.name_clash_witness
+#print axioms P2P.Props.C16.cycles_equivariant
